@@ -18,8 +18,10 @@ pub fn reset_ids() {
 pub struct Fuses {
     pub drop: Vec<i64>,
     pub clone: Vec<i64>,
+    /// ids whose creation by Default::default panics instead (the id is consumed, the element never exists)
+    pub default: Vec<i64>,
 }
-pub static FUSES: Mutex<Fuses> = Mutex::new(Fuses { drop: Vec::new(), clone: Vec::new() });
+pub static FUSES: Mutex<Fuses> = Mutex::new(Fuses { drop: Vec::new(), clone: Vec::new(), default: Vec::new() });
 
 fn take_fuse(which: fn(&mut Fuses) -> &mut Vec<i64>, id: i64) -> bool {
     let _b = crate::events::Bypass::new();
@@ -104,6 +106,12 @@ impl Clone for Tk {
 impl Default for Tk {
     fn default() -> Tk {
         let n = Tk::fresh();
+        if take_fuse(|f| &mut f.default, n.id()) {
+            // Default::default of the element type panics: nothing was created
+            std::mem::forget(n);
+            ev!("\"ev\":\"mkdef_panic\"");
+            injected_panic();
+        }
         ev!("\"ev\":\"mkdef\",\"id\":{}", n.id());
         n
     }
